@@ -2,6 +2,7 @@ package mon
 
 import (
 	"bytes"
+	stded25519 "crypto/ed25519"
 	"fmt"
 
 	"github.com/go-i2p/common/certificate"
@@ -23,6 +24,7 @@ func init() { register("C10", runC10) }
 
 func runC10(c *core.Ctx) {
 	buf := make([]byte, 1400)
+	offlineDestKey := stded25519.NewKeyFromSeed(make([]byte, 32))
 	for i := range buf {
 		buf[i] = byte(i*13 + 5)
 	}
@@ -89,6 +91,25 @@ func runC10(c *core.Ctx) {
 					if _, err := offline_signature.NewOfflineSignature(1, 7, buf[:32], buf[100:100+info.SigLen+d], uint16(code)); err == nil {
 						disagree("offline_signature.NewOfflineSignature", "length-differs", code, fmt.Sprintf("accepts a signature of %d bytes for destination type %d (specified: %d)", info.SigLen+d, code, info.SigLen))
 					}
+				}
+			}
+			// the signing constructor of the offline block: a transient key of the table's length is
+			// accepted under a destination key the library signs with (Ed25519, RedDSA), one byte more or
+			// less is not
+			if known && info.PubLen+1 < len(buf) {
+				for _, dt := range []uint16{7, 11} {
+					if _, err := offline_signature.CreateOfflineSignature(1, uint16(code), buf[:info.PubLen], offlineDestKey, dt); err != nil {
+						disagree("offline_signature.CreateOfflineSignature", "known-unknown-verdict", code, fmt.Sprintf("rejects a transient key of the specified length under destination type %d: %s", dt, firstLineOf(err.Error())))
+					}
+					for _, d := range []int{1, -1} {
+						if _, err := offline_signature.CreateOfflineSignature(1, uint16(code), buf[:info.PubLen+d], offlineDestKey, dt); err == nil {
+							disagree("offline_signature.CreateOfflineSignature", "length-differs", code, fmt.Sprintf("accepts a transient key of %d bytes (specified: %d)", info.PubLen+d, info.PubLen))
+						}
+					}
+				}
+			} else if !known {
+				if _, err := offline_signature.CreateOfflineSignature(1, uint16(code), buf[:32], offlineDestKey, 7); err == nil {
+					disagree("offline_signature.CreateOfflineSignature", "known-unknown-verdict", code, "accepts a transient key of an unknown type")
 				}
 			}
 			// offline signature parser: transient type = code, destination type = code
@@ -283,6 +304,38 @@ func runC10(c *core.Ctx) {
 		if ck, ok, err := lib.BuildKAC(m); ok && err == nil {
 			c.Call("layout(constructed)", enc, func() { check("keys_and_cert.NewKeysAndCert", ck) })
 			c.Bucket("layout-constructed")
+		}
+		// the certificate of a value that has been used is replaced by one declaring another pair
+		// (exported field): every key the value then hands out without error has the length its
+		// CURRENT certificate declares, and what it serialises without error is a block of the current
+		// types (a verdict remembered from before the replacement is stale)
+		if k2, _, err := keys_and_cert.ReadKeysAndCert(enc); err == nil && k2 != nil {
+			k2.PublicKey()
+			k2.SigningPublicKey()
+			k2.Bytes()
+			k2.Validate()
+			osig := rm.KACSigTypes[(i+1+r.Pick(len(rm.KACSigTypes)-1))%len(rm.KACSigTypes)]
+			ocr := rm.KACCryptoTypes[(i/len(rm.KACSigTypes)+1+r.Pick(len(rm.KACCryptoTypes)-1))%len(rm.KACCryptoTypes)]
+			if okc, ok, err := lib.BuildKeyCert(rm.KeyCert(osig, ocr, nil)); ok && err == nil && okc != nil {
+				ospk, _ := rm.SigPubLen(osig)
+				ocpk, _ := rm.CryptoLen(ocr)
+				if ospk != spk || ocpk != cpk {
+					k2.KeyCertificate = okc
+					sh2 := gen.Shape{"sig": sig, "crypto": cr, "replaced_by_sig": osig, "replaced_by_crypto": ocr}
+					c.Call("layout(certificate replaced)", enc, func() {
+						if sk, err := k2.SigningPublicKey(); err == nil && sk != nil && sk.Len() != k2.KeyCertificate.SigningPublicKeySize() {
+							c.Violate("keys_and_cert.KeysAndCert.SigningPublicKey", "declared-size-differs-from-key-length", sh2, enc, fmt.Sprintf("after the certificate was replaced: declared %d, key handed out %d", k2.KeyCertificate.SigningPublicKeySize(), sk.Len()))
+						}
+						if pk, err := k2.PublicKey(); err == nil && pk != nil && pk.Len() != k2.KeyCertificate.CryptoSize() {
+							c.Violate("keys_and_cert.KeysAndCert.PublicKey", "declared-size-differs-from-key-length", sh2, enc, fmt.Sprintf("after the certificate was replaced: declared %d, key handed out %d", k2.KeyCertificate.CryptoSize(), pk.Len()))
+						}
+						if k2.Validate() == nil {
+							c.Violate("keys_and_cert.KeysAndCert.Validate", "declared-size-differs-from-key-length", sh2, enc, "a value whose keys no longer have the sizes its certificate declares validates")
+						}
+					})
+					c.Bucket("layout-after-certificate-replaced")
+				}
+			}
 		}
 		// a padding argument of the wrong length (nil, empty, one byte short, one byte long): the
 		// constructor refuses, or the padding the value holds is exactly the bytes between the keys
